@@ -13,6 +13,9 @@ import (
 type SoloShape struct {
 	// Shift moves every absolute instant of the run (clock epoch and previous block timestamp).
 	Shift time.Duration
+	// ClockOnly: only the injected clock is shifted; every input (previous block timestamp, the
+	// peers' proposals) is the one of the unshifted run - "the same sequence of calls".
+	ClockOnly bool
 	// ClockSteps allows the clock to step backwards.
 	ClockSteps bool
 }
@@ -66,17 +69,23 @@ func RunSoloScript(r sim.Src, mons []*sim.Mon, keepLog bool, sh SoloShape) *Solo
 	s := sim.NewSolo(cfg, r, self, false, append([]*sim.Mon{tm}, mons...), keepLog)
 	out.S = s
 	nd := s.N
+	inShift := sh.Shift // how far the scripted inputs move with the clock
+	if sh.ClockOnly {
+		inShift = 0
+	}
+	inEpoch := uint64(epoch.Add(inShift).UnixNano())
+	inNow := func() uint64 { return uint64(nd.Now().Add(inShift - sh.Shift).UnixNano()) }
 	// previous block timestamp: before / around / after the clock, not aligned
 	switch r.Intn("prevts", 4) {
 	case 0:
-		nd.TipTs = uint64(cfg.Epoch.UnixNano()) - uint64(tpb) + uint64(r.Intn("prevjit", 1000))
+		nd.TipTs = inEpoch - uint64(tpb) + uint64(r.Intn("prevjit", 1000))
 	case 1:
-		nd.TipTs = uint64(cfg.Epoch.UnixNano()) + uint64(r.Intn("prevjit", 1000))
+		nd.TipTs = inEpoch + uint64(r.Intn("prevjit", 1000))
 	case 2:
-		nd.TipTs = uint64(cfg.Epoch.UnixNano()) + uint64(tpb)*uint64(1+r.Intn("prevahead", 5)) // the clock is behind the chain
+		nd.TipTs = inEpoch + uint64(tpb)*uint64(1+r.Intn("prevahead", 5)) // the clock is behind the chain
 		out.Classes["clock_behind_chain"]++
 	default:
-		nd.TipTs = uint64(cfg.Epoch.UnixNano()) / inc * inc
+		nd.TipTs = inEpoch / inc * inc
 	}
 	if startTip == 0 && r.Intn("genesisTs", 2) == 0 {
 		nd.TipTs = 0
@@ -104,7 +113,7 @@ func RunSoloScript(r sim.Src, mons []*sim.Mon, keepLog bool, sh SoloShape) *Solo
 	for i := 0; i < steps && len(s.W.Viols) == 0 && !nd.Crashed; i++ {
 		s.W.Step = i + 1
 		d := nd.D
-		switch pick(r, "step", 14, 10, 14, 14, 14, 6, 6, 8, 4, 4) {
+		switch pick(r, "step", 14, 10, 14, 14, 14, 6, 6, 8, 4, 4, 8) {
 		case 0: // advance the clock
 			dt := tpb * time.Duration(1+r.Intn("dt", 40)) / 20
 			if r.Intn("fine", 3) == 0 {
@@ -124,7 +133,7 @@ func RunSoloScript(r sim.Src, mons []*sim.Mon, keepLog bool, sh SoloShape) *Solo
 					txs = append(txs, s.W.Universe[(j+i)%len(s.W.Universe)])
 				}
 				txs = dedupTx(txs)
-				ts := max(nd.TipTs+inc, uint64(nd.Now().UnixNano())/inc*inc)
+				ts := max(nd.TipTs+inc, inNow()/inc*inc)
 				nd.Receive(s.Proposal(d.ViewNumber, ts, uint64(100+i), txs...))
 			}
 		case 3: // a matching response from the next peer
@@ -168,6 +177,32 @@ func RunSoloScript(r sim.Src, mons []*sim.Mon, keepLog bool, sh SoloShape) *Solo
 			if nd.AddTx(tx) && nd.Subscribed {
 				nd.Subscribed = false
 				nd.NewTransaction()
+			}
+		case 10: // a peer's recovery message carrying the round so far: the proposal, some responses, maybe commits
+			if o := s.Others(); len(o) > 0 && !d.BlockSent() && !d.IsPrimary() {
+				var p sim.Payload
+				if pp := d.PreparationPayloads[d.PrimaryIndex]; pp != nil && pp.Type() == dbft.PrepareRequestType {
+					p = pp.(*vt.Payload)
+				} else if pp == nil {
+					ts := max(nd.TipTs+inc, inNow()/inc*inc)
+					if r.Intn("rmoldts", 2) == 0 && nd.TipTs != 0 { // (a genesis timestamp of 0 does not move with the epoch)
+						ts = nd.TipTs + inc // an old proposal: its primary's clock was behind, or it was made long ago
+					}
+					p = s.Proposal(d.ViewNumber, ts, uint64(100+i))
+				}
+				if p != nil {
+					emb := []sim.Payload{p}
+					for k := r.Intn("rmresp", n); k > 0; k-- {
+						if j := nextPeer(); j != int(d.PrimaryIndex) {
+							emb = append(emb, s.Response(j, d.ViewNumber, p.Hash()))
+						}
+					}
+					for k := r.Intn("rmcommit", 3); k > 0; k-- {
+						emb = append(emb, s.Commit(nextPeer(), p))
+					}
+					nd.Receive(s.Recovery(o[i%len(o)], d.ViewNumber, emb...))
+					out.Classes["recovery_with_preparations"]++
+				}
 			}
 		default: // the clock steps back
 			if sh.ClockSteps {
@@ -307,20 +342,30 @@ func RunNestedTx(r sim.Src, mons []*sim.Mon, keepLog bool) *sim.World {
 			cvHeld++
 		}
 	}
-	// proposal of view 1 arrives early (cached), with k1 unknown transactions
-	k1 := 1 + r.Intn("k1", 3)
-	var tx1 []vt.Tx
-	for i := 0; i < k1; i++ {
-		tx1 = append(tx1, s.W.NewTx(false))
-	}
-	p1 := s.Proposal(1, s.NextTs(), 11, tx1...)
-	nd.Receive(p1)
 	// proposal of view 0 with k0 unknown transactions, one of them poisoned (verification will fail)
 	k0 := 1 + r.Intn("k0", 3)
 	var tx0 []vt.Tx
 	for i := 0; i < k0; i++ {
 		tx0 = append(tx0, s.W.NewTx(i == 0))
 	}
+	// proposal of view 1 arrives early (cached), with k1 unknown transactions; some of them may
+	// be (valid) transactions of the view 0 proposal: the new primary proposes them again
+	k1 := 1 + r.Intn("k1", 3)
+	var tx1 []vt.Tx
+	shared := 0
+	for i := 0; i < k1; i++ {
+		if 1+shared < k0 && r.Intn("share", 2) == 1 {
+			shared++
+			tx1 = append(tx1, tx0[shared])
+		} else {
+			tx1 = append(tx1, s.W.NewTx(false))
+		}
+	}
+	if shared > 0 {
+		s.W.Stat("c12_nested_shared_tx")
+	}
+	p1 := s.Proposal(1, s.NextTs(), 11, tx1...)
+	nd.Receive(p1)
 	// drawn order inside the proposal
 	if k0 > 1 && r.Intn("rot0", 2) == 1 {
 		tx0[0], tx0[k0-1] = tx0[k0-1], tx0[0]
@@ -489,6 +534,149 @@ func RunNestedRecovery(r sim.Src, mons []*sim.Mon, keepLog bool) *sim.World {
 		}
 	}
 	s.W.Stat("nested_recovery")
+	s.W.Finish()
+	return s.W
+}
+
+// RunWatchOnlySolo drives one *flagged validator with a past*: it sits in the validator list with
+// its watch-only flag set (an operator restarted it in watch-only mode), while its peers still hold
+// and relay what its index sent before - its own proposal for a view it is the primary of, its own
+// responses, change views and commits, alone or inside recovery messages - next to the ordinary
+// traffic of the round, in any order (responses before the proposal they answer, commits before
+// everything).  It must stay silent (MonC13) in every state this reaches.
+func RunWatchOnlySolo(r sim.Src, mons []*sim.Mon, keepLog bool) *sim.World {
+	n := 1 + pick(r, "N", 5, 5, 5, 45, 10, 10, 20)
+	self := r.Intn("self", n)
+	tpb := []time.Duration{time.Second, 5 * time.Second}[r.Intn("tpb", 2)]
+	startTip := uint32(r.Intn("tip", 40))
+	switch r.Intn("role", 3) {
+	case 0: // primary of view 0 at the first height
+		for (int(startTip)+1)%n != self {
+			startTip++
+		}
+	case 1: // primary of view 1
+		for (int(startTip)+1+n-1)%n != self {
+			startTip++
+		}
+	}
+	amev := int64(-1)
+	switch pick(r, "amev", 55, 30, 15) {
+	case 1:
+		amev = 0
+	case 2:
+		amev = int64(startTip) + 2
+	}
+	base := make([]int, n)
+	for i := range base {
+		base[i] = i
+	}
+	cfg := sim.Cfg{IDs: n, Validators: func(uint32) []int { return base }, ValDesc: fmt.Sprintf("const[0..%d]", n-1), StartTip: startTip,
+		AMEVHeight: amev, TimePerBlock: tpb, TsIncrement: 1_000_000, Epoch: epoch0}
+	if r.Intn("dyn", 4) == 0 {
+		cfg.MaxTimePerBlock = tpb * 3
+	}
+	s := sim.NewSolo(cfg, r, self, true, mons, keepLog)
+	nd := s.N
+	for i := r.Intn("ntx", 4); i > 0; i-- {
+		nd.AddTx(s.W.NewTx(false))
+	}
+	nd.Start()
+	type key struct {
+		h uint32
+		v byte
+	}
+	pend := map[key]sim.Payload{} // the proposal of (height, view), invented once, delivered when drawn
+	proposal := func() sim.Payload {
+		k := key{s.H(), s.V()}
+		if p, ok := pend[k]; ok {
+			return p
+		}
+		var txs []vt.Tx
+		for j := r.Intn("ptx", 3); j > 0 && j <= len(s.W.Universe); j-- {
+			txs = append(txs, s.W.Universe[j-1])
+		}
+		p := s.Proposal(k.v, s.NextTs(), uint64(100+len(pend)), txs...)
+		pend[k] = p
+		return p
+	}
+	anyIdx := func(label string) int { return r.Intn(label, n) } // its own index included
+	one := func(p sim.Payload) sim.Payload {
+		// a payload of the round by a drawn validator, the node itself included
+		i := anyIdx("author")
+		switch pick(r, "kind", 30, 25, 20, 15, 10) {
+		case 0:
+			if i == s.Primary(s.V()) {
+				return p
+			}
+			return s.Response(i, s.V(), p.Hash())
+		case 1:
+			if s.W.Cfg.AMEVOn(s.H()) && r.Intn("pcorcm", 2) == 0 {
+				return s.PreCommit(i, p)
+			}
+			return s.Commit(i, p)
+		case 2:
+			return s.CV(i, s.V(), s.V()+1)
+		case 3:
+			return p
+		}
+		return s.Response(i, s.V(), p.Hash())
+	}
+	steps := 8 + r.Intn("steps", 50)
+	for i := 0; i < steps && len(s.W.Viols) == 0 && !nd.Crashed; i++ {
+		s.W.Step = i + 1
+		p := proposal()
+		if int(p.Idx) == nd.D.MyIndex {
+			s.W.Stat("c13_own_proposal_around")
+		}
+		switch pick(r, "step", 40, 25, 8, 8, 7, 6, 6) {
+		case 0: // one payload of the round, delivered directly
+			q := one(p)
+			if q.Author == nd.ID && q.T == dbft.PrepareRequestType {
+				s.W.Stat("c13_own_request_delivered")
+			}
+			nd.Receive(q)
+		case 1: // a peer's recovery message with a drawn selection of the round's payloads
+			var emb []sim.Payload
+			for k := 1 + r.Intn("nemb", 2*n); k > 0; k-- {
+				q := one(p)
+				if q.Author == nd.ID && q.T == dbft.PrepareRequestType {
+					s.W.Stat("c13_own_request_delivered")
+				}
+				emb = append(emb, q)
+			}
+			if o := s.Others(); len(o) > 0 {
+				nd.Receive(s.Recovery(o[r.Intn("rmfrom", len(o))], s.V(), emb...))
+			}
+		case 2:
+			if o := s.Others(); len(o) > 0 {
+				nd.Receive(s.RecoveryRequest(o[r.Intn("rqfrom", len(o))], s.V()))
+			}
+		case 3:
+			if nd.Timer.Pending {
+				s.Fire()
+			} else {
+				nd.Timeout(s.H(), s.V()) // the application may still call it
+			}
+		case 4:
+			if len(nd.D.MissingTransactions) > 0 {
+				if tx, ok := s.W.TxByHash(nd.D.MissingTransactions[r.Intn("missing", len(nd.D.MissingTransactions))]); ok {
+					nd.Transaction(tx)
+				}
+			} else {
+				nd.Transaction(s.W.NewTx(false))
+			}
+		case 5:
+			nd.AddTx(s.W.NewTx(false))
+			nd.NewTransaction()
+		default:
+			s.Advance(tpb * time.Duration(1+r.Intn("dt", 40)) / 10)
+		}
+		if nd.NeedInit && !nd.Crashed {
+			nd.Reset()
+			s.W.Stat("c13_solo_height")
+		}
+	}
+	s.W.Stat("c13_solo")
 	s.W.Finish()
 	return s.W
 }
